@@ -67,7 +67,9 @@ def judge(text, ver, counts):
   info["nchains"] = len(ref)
   g = gfapy.Gfa(text, version=ver)
   text0 = str(g)
-  if text0.strip("\n") != text.strip("\n"):
+  if sorted(text0.strip("\n").split("\n")) != \
+      sorted(text.strip("\n").split("\n")):
+    # (record order is free; anything else is C01's business, not judged here)
     info["outcome"] = "input-not-written-back"
     return probs, info
   # --- detection
@@ -122,6 +124,11 @@ def judge(text, ver, counts):
         if id(x) not in rid:
           rid.add(id(x))
           removed.append(x)
+  # gfamc.invariants reports the header record (g.lines builds it on the fly,
+  # it has no owner) even on a Gfa nothing was done to: problems present
+  # before the merge are not the merge's
+  baseline = set(invariants.check_closed_symmetric(g, [])) \
+      if text.startswith("H\t") else set()
   err = None
   try:
     g.merge_linear_paths()
@@ -158,7 +165,8 @@ def judge(text, ver, counts):
                   "but the written graph has {}".format(
                       R.fmt_part(gotp), R.fmt_part(R.components(after))), {}))
   for clause, detail in invariants.check_closed_symmetric(g, removed):
-    probs.append(("closure:" + clause, detail, {}))
+    if (clause, detail) not in baseline:
+      probs.append(("closure:" + clause, detail, {}))
   # --- second merge
   try:
     lp2 = g.linear_paths()
